@@ -40,8 +40,9 @@ def traced_types():
     import nmfoo
     import nmpkg.nmutils as pn
     import decimal
-    return [None, int, str, List[int], Optional[float], fxh.Base, fxh.D1, Dict[str, fxh.D2], pn.B, nmfoo.Baz, List[fxh.Base],
-            ("TD", ("alpha", "beta")), ("TDN", "alpha"), decimal.Decimal, fxh.Other]
+    import typing_utils_fx
+    return [typing_utils_fx.TU, int, str, List[int], Optional[float], fxh.Base, fxh.D1, Dict[str, fxh.D2], pn.B, nmfoo.Baz, List[fxh.Base],
+            ("TD", ("alpha", "beta")), ("TDN", "alpha"), decimal.Decimal, fxh.Other, typing_utils_fx.TU]
 
 
 @st.composite
@@ -55,8 +56,8 @@ def fspec(draw, name, method=None):
             seen = True
         elif seen:
             d = "0"
-        ps.append(dict(name="p%d" % i, default=d, anno=draw(st.sampled_from(ANNOS)), traced=draw(st.integers(0, 14))))
-    return dict(name=name, ps=ps, ret_anno=draw(st.sampled_from(ANNOS)), ret_traced=draw(st.integers(1, 14)),
+        ps.append(dict(name="p%d" % i, default=d, anno=draw(st.sampled_from(ANNOS)), traced=draw(st.integers(0, 15))))
+    return dict(name=name, ps=ps, ret_anno=draw(st.sampled_from(ANNOS)), ret_traced=draw(st.integers(1, 15)),
                 kwonly=draw(st.booleans()), varargs=draw(st.booleans()), posonly=draw(st.sampled_from([False, False, True])), deco=draw(st.sampled_from([None, None, "deco", "deco2"])),
                 style=draw(st.sampled_from(["normal", "normal", "oneline", "multiline"])), nested=draw(st.booleans()),
                 inner_comment=draw(st.booleans()), docstring=draw(st.booleans()), use=draw(st.integers(0, 20)),
@@ -378,7 +379,7 @@ def comments(src):
 
 
 import re as _re
-_QUAL = _re.compile(r"\b(?:fxh|fx|nmpkg\.nmutils|nmfoo|typing|decimal|mypy_extensions)\.")
+_QUAL = _re.compile(r"\b(?:fxh|fx|nmpkg\.nmutils|nmfoo|typing_utils_fx|typing|decimal|mypy_extensions)\.")
 
 
 def norm_anno(text):
